@@ -128,6 +128,218 @@ def half_check(run, rng):
     run.notes["half_cases"] = len(terms)
 
 
+# ------------------------------------------------------------------ parametrized classes at special angles
+import math
+
+SPECIAL = [0.0, math.pi / 2, math.pi, -math.pi, 2 * math.pi]
+SCALES = [1.0, math.sqrt(2.0), 2.0, 2.0 * math.sqrt(2.0)]
+
+
+def param_classes():
+    """every parametrized gate class of gates.py with fixed arity (enumerated from the source)"""
+    from lib import qtrace
+    return [(nm, nq, ps) for nm, nq, ps in qtrace.catalogue() if ps]
+
+
+def scaled_int_matrix(M):
+    """smallest s in {1, sqrt2, 2, 2sqrt2} with s*M Gaussian-integer (entries of every class at multiples of pi/2
+    lie in (1/s) Z[i]); returns (s, integer matrix) or None"""
+    M = np.asarray(M, dtype=complex)
+    for s in SCALES:
+        S = M * s
+        R = np.round(S.real) + 1j * np.round(S.imag)
+        if np.abs(S - R).max() < 1e-9:
+            return s, [[[int(round(x.real)), int(round(x.imag))] for x in row] for row in R]
+    return None
+
+
+def param_gate(name, qubits, params):
+    return {"name": name, "args": list(qubits), "params": [float(x) for x in params], "extra": []}
+
+
+def build_param_circuit(n, gs, dm=True):
+    """real circuit; fills the model view; parametrized gates get the scaled integer matrix s*M.
+    Returns (circuit, product of s^2) or raises ValueError('lattice') when a matrix is not on the lattice"""
+    from qibo import Circuit
+    from lib import qtrace
+    c = Circuit(n, density_matrix=dm)
+    scale2 = 1.0
+    for g in gs:
+        if "params" in g:
+            real = qtrace.make_gate(g["name"], g["args"], g["params"])
+            sm = scaled_int_matrix(real.matrix(backend()))
+            if sm is None:
+                raise ValueError("lattice")
+            sc, S = sm
+            scale2 *= sc * sc
+            g["ctrl"] = bool(real.is_controlled_by)
+            g["cs"] = [int(q) for q in real._control_qubits]
+            g["ts"] = [int(q) for q in real.target_qubits]
+            g["M"] = S
+            g["intent"] = [[], [int(q) for q in real.qubits], S]
+        else:
+            real = make_real_gate(g)
+            describe(real, g)
+        c.add(real)
+    return c, scale2
+
+
+def real_param_dm(case):
+    """density-matrix execution through circuit(initial_state=rho); output rescaled to the integer lattice"""
+    c, scale2 = build_param_circuit(case["n"], case["gates"])
+    res = np.asarray(c(initial_state=np_matrix(case["init"]).copy()).state()) * scale2
+    R = np.round(res.real) + 1j * np.round(res.imag)
+    if np.abs(res - R).max() > 1e-6 * max(1.0, np.abs(res).max()):
+        return None
+    return {"state": [[[int(round(x.real)), int(round(x.imag))] for x in row] for row in R], "scale2": scale2}
+
+
+def param_key(case):
+    sig = []
+    for g in case["gates"]:
+        if "params" in g:
+            sig.append(g["name"] + "(" + ",".join(f"{x / (math.pi / 2):g}" for x in g["params"]) + ")q" + "".join(map(str, g["args"])))
+    return "dmparam:" + ";".join(sig)
+
+
+def draw_params(rng, nm, nq, ps, one):
+    """draw parameters with `one()` until the constructor accepts them (some classes restrict the domain,
+    e.g. MS: 0 <= theta <= pi/2); falls back to restricted draws, finally to all zeros"""
+    from lib import qtrace
+    for attempt in range(30):
+        params = [one() for _ in ps] if attempt < 15 else [rng.choice([0.0, math.pi / 2]) for _ in ps]
+        try:
+            qtrace.make_gate(nm, list(range(nq)), params)
+            return params
+        except ValueError:
+            continue
+    return [0.0] * len(ps)
+
+
+def gen_param_cases(run, rng):
+    cases = []
+    classes = param_classes()
+    # deterministic sweep: every parametrized class with ALL parameters 0, non-ascending placement, one
+    # spectator qubit, mixed non-Hermitian rho
+    for nm, nq, ps in classes:
+        n = nq + 1
+        qs = list(range(n))[::-1][:nq]
+        cases.append({"n": n, "gates": [param_gate(nm, qs, [0.0] * len(ps))], "init": rand_rho(rng, n, "general"),
+                      "rho_kind": "general", "stream": "zero-sweep"})
+    # random special angles (multiples of pi/2, 0 included), after a random Unitary gate
+    reps = 1 if run.tier != "thorough" else 6
+    for nm, nq, ps in classes:
+        for _ in range(reps):
+            n = min(4, nq + rng.randint(0, 2))
+            qs = rng.sample(range(n), nq)
+            params = draw_params(rng, nm, nq, ps, lambda: rng.choice(SPECIAL))
+            if rng.random() < 0.3:
+                params = [0.0] * len(ps)
+            pre = random_circuit(rng, n, 1, 1, dm=True, max_arity=2)
+            kind = rng.choice(["hermitian", "general"])
+            cases.append({"n": n, "gates": pre + [param_gate(nm, qs, params)], "init": rand_rho(rng, n, kind),
+                          "rho_kind": kind, "stream": "special-angles"})
+    return cases
+
+
+def param_check(run, rng):
+    """parametrized classes at special angles: exact comparison on the scaled integer lattice"""
+    cases = gen_param_cases(run, rng)
+    good, outs, skipped = [], [], 0
+    for case in cases:
+        try:
+            out = real_param_dm(case)
+        except ValueError:
+            skipped += 1
+            continue
+        except Exception as e:
+            run.find(param_key(case) + ":raises", f"well-formed circuit raised {type(e).__name__}: {e}", {"case": case, "mechanism": "param"})
+            continue
+        if out is None:
+            run.find(param_key(case), "density-matrix execution of a gate at a multiple of pi/2 is not U rho U^dagger "
+                     "(result is off the exact lattice)", {"case": case, "mechanism": "param"})
+            continue
+        good.append(case)
+        outs.append(out)
+    res = eval_cases(run, "C02_param", [dm_case_term(c, o) for c, o in zip(good, outs)], len(DM_LABELS), chunk=40)
+    for case, out, bs in zip(good, outs, res):
+        run.case(["param", case], nontrivial=True)
+        key = param_key(case)
+        if bs is None:
+            run.find("coq-eval:" + key, "Coq evaluation failed", {"case": case}, concrete=False)
+            continue
+        d = dict(zip(DM_LABELS, bs))
+        if not d["spec_dm"]:
+            small = None
+            if len(case["gates"]) > 1:      # shrink: the parametrized gate alone
+                c1 = {"n": case["n"], "gates": [g for g in case["gates"] if "params" in g], "init": case["init"],
+                      "rho_kind": case["rho_kind"], "stream": case["stream"]}
+                try:
+                    o1 = real_param_dm(c1)
+                    b1 = eval_cases(run, "C02_param_shrink", [dm_case_term(c1, o1)], len(DM_LABELS))[0] if o1 else None
+                    if o1 is None or (b1 is not None and not b1[2]):
+                        small = c1
+                except Exception:
+                    pass
+            rep = small or case
+            run.find(param_key(rep), "density-matrix execution through circuit(initial_state=rho) is not U rho U^dagger for the "
+                     "operator U of the same circuit (parametrized gate at a multiple of pi/2)",
+                     {"case": rep, "mechanism": "param", "observed_scaled": out if rep is case else None})
+        elif not (d["model_dm"] and d["thmspec_dm"] and d["gate_ok"]):
+            run.find("model:" + key, "model and implementation disagree while the implementation matches the spec",
+                     {"case": case, "mechanism": "param"}, concrete=False)
+    run.notes["param_cases"] = {"exact": len(good), "skipped_off_lattice": skipped, "classes": len(param_classes())}
+
+
+def float_check(run, rng):
+    """TEST level (tolerance 1e-9, labelled): for every parametrized class at random angles (25% of the angles drawn
+    from the special set), density-matrix execution against U rho U^dagger with U = Circuit.unitary() of the same
+    gates (state-vector semantics, C01)"""
+    from qibo import Circuit
+    from lib import qtrace
+    classes = param_classes()
+    reps = 1 if run.tier != "thorough" else 5
+    ncases = 0
+    for nm, nq, ps in classes:      # all-zero sweep also at test level (covers classes off the exact lattice, e.g. CU2)
+        n = nq + 1
+        qs = list(range(n))[::-1][:nq]
+        params = [0.0] * len(ps)
+        rho = np_matrix(rand_rho(rng, n, "general"))
+        bad = float_case(nm, qs, params, n, rho)
+        ncases += 1
+        run.case(["float-zero", nm], nontrivial=True)
+        if bad is not None:
+            run.find(f"dmfloat:{nm}:zero", f"density-matrix execution differs from U rho U^dagger at all-zero parameters (max abs diff {bad:.3g})",
+                     {"mechanism": "float", "class": nm, "qubits": qs, "params": params, "n": n,
+                      "rho": [[[x.real, x.imag] for x in row] for row in rho]})
+    for nm, nq, ps in classes:
+        for _ in range(reps):
+            n = min(4, nq + rng.randint(0, 1))
+            qs = rng.sample(range(n), nq)
+            params = draw_params(rng, nm, nq, ps, lambda: rng.choice(SPECIAL) if rng.random() < 0.25 else round(rng.uniform(-3.0, 3.0), 4))
+            rho = np_matrix(rand_rho(rng, n, "general"))
+            bad = float_case(nm, qs, params, n, rho)
+            ncases += 1
+            run.case(["float", nm, qs, params], nontrivial=True)
+            if bad is not None:
+                run.find(f"dmfloat:{nm}", f"density-matrix execution differs from U rho U^dagger (max abs diff {bad:.3g})",
+                         {"mechanism": "float", "class": nm, "qubits": qs, "params": params, "n": n,
+                          "rho": [[[x.real, x.imag] for x in row] for row in rho]})
+    run.notes["float_test_cases"] = ncases
+
+
+def float_case(nm, qs, params, n, rho):
+    from qibo import Circuit
+    from lib import qtrace
+    cd, cs = Circuit(n, density_matrix=True), Circuit(n)
+    cd.add(qtrace.make_gate(nm, qs, params))
+    cs.add(qtrace.make_gate(nm, qs, params))
+    U = np.asarray(cs.unitary(backend()))
+    got = np.asarray(cd(initial_state=rho.copy()).state())
+    diff = float(np.abs(got - U @ rho @ U.conj().T).max())
+    return diff if diff > 1e-9 * max(1.0, float(np.abs(rho).max())) else None
+
+
 def shrink_dm(run):
     def f(case):
         singles = []
@@ -171,8 +383,12 @@ def main(run):
         run.sample({"n": c["n"], "rho": c["rho_kind"], "gates": [[g["name"], g["args"], g["extra"]] for g in c["gates"]]})
     judge(run, "dm", good, outs, res, DM_LABELS, ["spec_dm"], ["model_dm", "thmspec_dm", "gate_ok"], shrink_dm(run))
     half_check(run, rng)
+    param_check(run, rng)
+    float_check(run, rng)
     c01.malformed_check(run, rng, dm=True)
     return run.finish(level="proof", rule=(
+        "parametrized classes (every class of gates.py, enumerated from the source): all-zero sweep and random multiples of pi/2 "
+        "through circuit(initial_state=rho), exact on the lattice (1/s)Z[i]; random angles at test level against Circuit.unitary(); "
         "as C01 with density_matrix=True: random circuits n in 1..5 depth 1..6 plus depth-1 sweep of all (ordered targets, control "
         "subset) placements (quick: all n<=3 arity<=2 + samples up to n=5 arity 3; thorough: all n<=4 arity<=3 + n=5 sample), rho alternately "
         "integer Hermitian and non-Hermitian with complex off-diagonals; nontrivial as in C01"))
@@ -183,6 +399,21 @@ def replay(run, data):
     qibo.set_backend("numpy")
     rp = data.get("replay", {})
     case = rp.get("case")
+    if rp.get("mechanism") == "param":
+        try:
+            out = real_param_dm(case)
+            bs = eval_cases(run, "C02_replay", [dm_case_term(case, out)], len(DM_LABELS))[0] if out else None
+            if out is None or bs is None or not bs[2]:
+                run.find(data["key"], data.get("what", ""), {"case": case, "mechanism": "param"})
+        except Exception as e:
+            run.find(data["key"], f"raised {type(e).__name__}: {e}", {"case": case, "mechanism": "param"})
+        return run.finish(rule="replay of one recorded case")
+    if rp.get("mechanism") == "float":
+        rho = np.array([[complex(a, b) for a, b in row] for row in rp["rho"]])
+        bad = float_case(rp["class"], rp["qubits"], rp["params"], rp["n"], rho)
+        if bad is not None:
+            run.find(data["key"], data.get("what", ""), rp)
+        return run.finish(rule="replay of one recorded case")
     if case and rp.get("mechanism") != "half":
         try:
             out = real_state(case["n"], case["gates"], case["init"], dm=True)
